@@ -46,6 +46,9 @@ DECIDING = {
     "services_started_during_teardown": "service tasks started by a teardown callback while the context was closing",
     "registrations_while_a_service_was_starting": "another task registered a resource while start_service_task() was still waiting for the task to start",
     "action_form_object": "teardown action given as a callable object",
+    "action_form_unhashable_object": "teardown action given as an unhashable callable object (__eq__ without __hash__)",
+    "action_form_builtin": "teardown action that is a bound method of a built-in object (__module__ is None)",
+    "action_form_method_wrapper": "teardown action that is a method-wrapper (no __module__)",
     "action_form_partial": "teardown action given as functools.partial",
     "nested_owner": "owner is a nested context",
     "root_owner": "owner is the root context",
